@@ -62,13 +62,26 @@ def rollbackRet (s : Script) (ps : List Nat) : Ret :=
   | none => .ok
   | some q => .err q .rollback none
 
+/-- `SinglePhaseTransaction.Rollback` on an object whose flag `committed` is `done` (fix 6c4c66ea: the flag is set by
+`Commit` right before the participants' `Phase2Commit` fan-out; once set, `Rollback` still calls SOP's own `Rollback`
+and returns its error, but tells no participant to roll back). `rollback` above is the case `done = false`. -/
+def rollbackC (done : Bool) (s : Script) (ps : List Nat) : List Call × Option Nat :=
+  if done then ([call s .rollback 0], if s 0 .rollback then none else some 0)
+  else rollback s ps
+
+def rollbackRetC (done : Bool) (s : Script) (ps : List Nat) : Ret :=
+  match (rollbackC done s ps).2 with
+  | none => .ok
+  | some q => .err q .rollback none
+
 /-- `SinglePhaseTransaction.Begin`: SOP, then the participants, stopping at the first error (and
 rolling nothing back) -/
 def begin (s : Script) (ps : List Nat) : List Call × Ret :=
   let r := callUntilFail s .begin (0 :: ps)
   (r.1, match r.2 with | none => .ok | some p => .err p .begin none)
 
-/-- `SinglePhaseTransaction.Commit` -/
+/-- `SinglePhaseTransaction.Commit` on an object whose `committed` flag is not set (every first `Commit`; the flag
+stays unset on every failing path, so the `t.Rollback` calls inside are `rollback`) -/
 def commit (s : Script) (ps : List Nat) : List Call × Ret :=
   let rb := rollback s ps
   if s 0 .phase1 then
@@ -81,5 +94,203 @@ def commit (s : Script) (ps : List Nat) : List Call × Ret :=
         (call s .phase1 0 :: (l1 ++ (call s .phase2 0 :: rb.1)), .err 0 .phase2 rb.2)
   else
     (call s .phase1 0 :: rb.1, .err 0 .phase1 rb.2)
+
+/-!
+# The same methods with SOP's side as the real `common.Transaction` lifecycle
+
+`SinglePhaseTransaction.HasBegun` delegates to SOP's own two-phase transaction, and `common.Transaction`
+(`common/twophasecommittransaction.go`) ends itself (`phaseDone = 2`, `HasBegun() == false`) **before** it returns
+a phase error. Below, SOP's side is no longer an oracle `s 0 k` but a state machine `SopSt` (mode, `phaseDone`,
+`committed`) that every SOP call moves; what is scripted is only whether the *internal work* of a call succeeds
+when the call reaches it (`w k`). Every logged call also records what `HasBegun()` answers right after it.
+
+`Variant.guard` is the code with `if !t.HasBegun() { return nil }` put at the top of
+`SinglePhaseTransaction.Rollback` (an "idempotency guard"); the code as it is is `Variant.asIs`.
+-/
+
+inductive Mode where
+  | noCheck | forWriting | forReading
+deriving DecidableEq, Repr, Inhabited
+
+/-- the fields of `common.Transaction` its lifecycle methods look at -/
+structure SopSt where
+  mode : Mode
+  pd : Int          -- phaseDone: -1 not begun, 0 begun, 1 phase 1 called, 2 done
+  committed : Bool
+deriving DecidableEq, Repr, Inhabited
+
+/-- `Transaction.HasBegun`: `t.phaseDone >= 0 && t.phaseDone < 2` -/
+def SopSt.hasBegun (σ : SopSt) : Bool := decide (0 ≤ σ.pd) && decide (σ.pd < 2)
+
+/-- one call of `common.Transaction.{Begin, Phase1Commit, Phase2Commit, Rollback}`; `w` = the call's internal work
+(`phase1Commit` / `commitForReaderTransaction`, `phase2Commit`, `rollback(ctx, true)`) succeeds, if it is reached.
+Returns the new state and whether the call returned `nil`. -/
+def sopCall (σ : SopSt) (k : Kind) (w : Bool) : SopSt × Bool :=
+  match k with
+  | .begin =>
+    if σ.hasBegun then (σ, false)            -- "transaction is ongoing"
+    else if σ.pd = 2 then (σ, false)         -- "transaction is done"
+    else if w then ({ σ with pd := 0 }, true)
+    else (σ, false)                          -- (the real Begin has no failing work; a scripted fake may refuse)
+  | .phase1 =>
+    if !σ.hasBegun then (σ, false)           -- "no transaction to commit"
+    else
+      match σ.mode with
+      | .noCheck => ({ σ with pd := 1 }, true)
+      | .forReading => ({ σ with pd := 1 }, w)      -- the reader's error is returned as is: phaseDone stays 1
+      | .forWriting =>
+        if w then ({ σ with pd := 1 }, true)
+        else ({ σ with pd := 2 }, false)            -- `t.phaseDone = 2; t.rollback(ctx, true)`; error
+  | .phase2 =>
+    if !σ.hasBegun then (σ, false)
+    else if σ.pd = 0 then (σ, false)         -- "phase 1 commit has not been invoke yet"
+    else
+      match σ.mode with
+      | .forWriting =>
+        if w then ({ σ with pd := 2, committed := true }, true)
+        else ({ σ with pd := 2 }, false)            -- `t.phaseDone = 2` comes before the work
+      | _ => ({ σ with pd := 2, committed := true }, true)
+  | .rollback =>
+    if σ.pd = 2 then (σ, !σ.committed)       -- done: "already committed" error, else idempotent `nil`
+    else if !σ.hasBegun then (σ, false)      -- "no transaction to rollback"
+    else ({ σ with pd := 2 }, w)
+
+/-- a logged call together with what SOP's `HasBegun()` answers right after it -/
+structure CallL where
+  who : Nat
+  kind : Kind
+  ok : Bool
+  hb : Bool
+deriving DecidableEq, Repr, Inhabited
+
+def CallL.toCall (c : CallL) : Call := ⟨c.who, c.kind, c.ok⟩
+
+/-- `asIs`: the code as it is (with fix 6c4c66ea). `guard`: the same with `if !t.HasBegun() { return nil }` put at the
+top of `Rollback`. `legacy`: the code before fix 6c4c66ea — `Rollback` never looks at the `committed` flag (kept only
+for the witness of the repaired findings C16-F1/F2). -/
+inductive Variant where
+  | asIs | guard | legacy
+deriving DecidableEq, Repr, Inhabited
+
+abbrev Work := Kind → Bool
+
+/-- participants' calls do not move SOP's state -/
+def tag (σ : SopSt) (l : List Call) : List CallL := l.map (fun c => ⟨c.who, c.kind, c.ok, σ.hasBegun⟩)
+
+def sopLogged (σ : SopSt) (k : Kind) (w : Work) : SopSt × CallL × Bool :=
+  let r := sopCall σ k (w k)
+  (r.1, ⟨0, k, r.2, r.1.hasBegun⟩, r.2)
+
+/-- result of one method call: SOP's state, the wrapper's `committed` flag (`done`), the calls made, what was returned -/
+structure OutL where
+  st : SopSt
+  done : Bool
+  log : List CallL
+  ret : Ret
+deriving DecidableEq, Repr
+
+/-- `SinglePhaseTransaction.Rollback` on an object whose `committed` flag is `d` (returns the log and `lastErr`'s owner) -/
+def rollbackL (v : Variant) (w : Work) (s : Script) (ps : List Nat) (σ : SopSt) (d : Bool) : SopSt × List CallL × Option Nat :=
+  if v = .guard ∧ σ.hasBegun = false then (σ, [], none)        -- the seeded early return
+  else
+    let r := sopLogged σ .rollback w
+    if v ≠ .legacy ∧ d = true then
+      (r.1, [r.2.1], if r.2.2 then none else some 0)             -- `if t.committed { return lastErr }`
+    else
+      (r.1, r.2.1 :: tag r.1 (callAll s .rollback ps),
+       match lastFailed s .rollback ps with
+       | some q => some q
+       | none => if r.2.2 then none else some 0)
+
+def rollbackOutL (v : Variant) (w : Work) (s : Script) (ps : List Nat) (σ : SopSt) (d : Bool) : OutL :=
+  let r := rollbackL v w s ps σ d
+  ⟨r.1, d, r.2.1, match r.2.2 with | none => .ok | some q => .err q .rollback none⟩
+
+/-- `SinglePhaseTransaction.Begin` -/
+def beginL (w : Work) (s : Script) (ps : List Nat) (σ : SopSt) (d : Bool) : OutL :=
+  let r := sopLogged σ .begin w
+  if r.2.2 then
+    let l := callUntilFail s .begin ps
+    ⟨r.1, d, r.2.1 :: tag r.1 l.1, match l.2 with | none => .ok | some p => .err p .begin none⟩
+  else ⟨r.1, d, [r.2.1], .err 0 .begin none⟩
+
+/-- `SinglePhaseTransaction.Commit` -/
+def commitL (v : Variant) (w : Work) (s : Script) (ps : List Nat) (σ : SopSt) (d : Bool) : OutL :=
+  let r1 := sopLogged σ .phase1 w
+  if r1.2.2 then
+    match callUntilFail s .phase1 ps with
+    | (l1, some p) =>
+      let rb := rollbackL v w s ps r1.1 d
+      ⟨rb.1, d, r1.2.1 :: (tag r1.1 l1 ++ rb.2.1), .err p .phase1 rb.2.2⟩
+    | (l1, none) =>
+      let r2 := sopLogged r1.1 .phase2 w
+      if r2.2.2 then
+        -- `t.committed = true`, then the participants' Phase2Commit
+        ⟨r2.1, true, r1.2.1 :: (tag r1.1 l1 ++ r2.2.1 :: tag r2.1 (callAll s .phase2 ps)), .ok⟩
+      else
+        let rb := rollbackL v w s ps r2.1 d
+        ⟨rb.1, d, r1.2.1 :: (tag r1.1 l1 ++ r2.2.1 :: rb.2.1), .err 0 .phase2 rb.2.2⟩
+  else
+    let rb := rollbackL v w s ps r1.1 d
+    ⟨rb.1, d, r1.2.1 :: rb.2.1, .err 0 .phase1 rb.2.2⟩
+
+/-! ## sessions: any sequence of method calls on one object, each with its own failures -/
+
+inductive OpL where
+  | begin | commit | rollback
+deriving DecidableEq, Repr, Inhabited
+
+/-- one method call with the failures in force during it: SOP's failing work and the participants' answers -/
+structure StepL where
+  op : OpL
+  w : Work
+  s : Script
+
+/-- the object between method calls: SOP's transaction and the wrapper's `committed` flag -/
+structure TxSt where
+  sop : SopSt
+  done : Bool
+deriving DecidableEq, Repr
+
+def stepL (v : Variant) (ps : List Nat) (τ : TxSt) (x : StepL) : OutL :=
+  match x.op with
+  | .begin => beginL x.w x.s ps τ.sop τ.done
+  | .commit => commitL v x.w x.s ps τ.sop τ.done
+  | .rollback => rollbackOutL v x.w x.s ps τ.sop τ.done
+
+def OutL.tx (o : OutL) : TxSt := ⟨o.st, o.done⟩
+
+/-- all calls of a session, in order -/
+def runL (v : Variant) (ps : List Nat) (τ : TxSt) : List StepL → List CallL
+  | [] => []
+  | x :: xs => (stepL v ps τ x).log ++ runL v ps (stepL v ps τ x).tx xs
+
+/-- the object after a session -/
+def finalL (v : Variant) (ps : List Nat) (τ : TxSt) : List StepL → TxSt
+  | [] => τ
+  | x :: xs => finalL v ps (stepL v ps τ x).tx xs
+
+/-- a participant is told to commit / to roll back -/
+def isP2 (c : CallL) : Bool := c.who != 0 && c.kind == .phase2
+def isRb (c : CallL) : Bool := c.who != 0 && c.kind == .rollback
+
+/-- the answers SOP's side gives during one `Commit` started in state `σ`, as a script for the black-box model:
+phase 1 from `σ`, phase 2 from the state phase 1 left, the rollback from the state the failing path left -/
+def effScript (w : Work) (s : Script) (ps : List Nat) (σ : SopSt) : Script := fun p k =>
+  if p = 0 then
+    let r1 := sopCall σ .phase1 (w .phase1)
+    let r2 := sopCall r1.1 .phase2 (w .phase2)
+    match k with
+    | .begin => (sopCall σ .begin (w .begin)).2
+    | .phase1 => r1.2
+    | .phase2 => r2.2
+    | .rollback =>
+      (sopCall (if r1.2 && (callUntilFail s .phase1 ps).2.isNone then r2.1 else r1.1) .rollback (w .rollback)).2
+  else s p k
+
+/-- the decision calls the attached participants received, in order: everything that is not SOP's own call and
+is neither a `Begin` nor a `Phase1Commit` -/
+def decisions (log : List CallL) : List Call :=
+  (log.map CallL.toCall).filter (fun c => c.who != 0 && (c.kind == .phase2 || c.kind == .rollback))
 
 end Sop.TwoPC
